@@ -138,13 +138,19 @@ def case_request(i):
     return r
 
 
+FAULT_FREE_BROKEN = []
+
+
 def _fault_free_exchanges(i):
     cmd, var, _ = CASES[i]
     d = _device(cmd)
     proto, dongle, world = make_stack(d, v1=i in V1_CASES)
     r = handle(proto, case_request(i))
-    assert r[0] == "reply" and r[1]["errorcode"] == 0, (cmd, r)
-    return world.exchanges
+    # (a fault-free run that does not succeed on the tree under check is reported by the `fault_free` obligation, not here:
+    #  this function only sizes the partitions and must not stop the other obligations / properties from running)
+    if not (r[0] == "reply" and r[1].get("errorcode") == 0):
+        FAULT_FREE_BROKEN.append((cmd, var, repr(r)[:200]))
+    return max(1, world.exchanges)
 
 
 def _device(cmd):
